@@ -1,0 +1,53 @@
+//go:build verif
+
+package evm
+
+// Contracts for the deductive checker in /verif (comment-only; compiled only with -tags verif).
+
+/*@
+alias MsgEthTx github.com/haqq-network/haqq/x/evm/types.MsgEthereumTx
+alias DynamicFeeEVMKeeper github.com/haqq-network/haqq/app/ante/evm.DynamicFeeEVMKeeper
+// keeper interfaces seen by the decorators: store reads, deterministic for a given context (assumed)
+func (FeeMarketKeeper).GetParams
+    params fk, ctx
+    pure as fmk_params
+func (EVMKeeper).GetParams
+    params ek, ctx
+    pure as evmk_params
+func (DynamicFeeEVMKeeper).ChainID
+    params ek
+    pure as evmk_chainid
+// the current base fee: nil (London not active) or a newly allocated big.Int holding the value
+uf evmk_basefee_nil(ek DynamicFeeEVMKeeper, ctx Ctx, cfg *github.com/ethereum/go-ethereum/params.ChainConfig) bool
+uf evmk_basefee_val(ek DynamicFeeEVMKeeper, ctx Ctx, cfg *github.com/ethereum/go-ethereum/params.ChainConfig) int
+func (DynamicFeeEVMKeeper).GetBaseFee
+    params ek, ctx, ethCfg
+    ensures nilness: (result == nil) == evmk_basefee_nil(ek, ctx, ethCfg)
+    ensures value: result != nil ==> fresh(result) && *result == evmk_basefee_val(ek, ctx, ethCfg)
+
+// C07: `next` is only reached when every message is an Ethereum tx whose fee (effective fee under the current
+// base fee) is at least gasLimit x MinGasPrice (or MinGasPrice is zero).
+func (EthMinGasPriceDecorator).AnteHandle
+    let mgp = fmk_params(empd.feesKeeper, ctx).MinGasPrice
+    let cfg = chaincfg_eth(evmk_params(empd.evmKeeper, ctx).ChainConfig, evmk_chainid(empd.evmKeeper))
+    let london = !evmk_basefee_nil(empd.evmKeeper, ctx, cfg)
+    let bf = ite(london, evmk_basefee_val(empd.evmKeeper, ctx, cfg), 0)
+    let msgs = tx_msgs(tx)
+    requires nonnil: empd.feesKeeper != nil && empd.evmKeeper != nil && tx != nil
+    requires ptrs: forall k int :: 0 <= k && k < len(msgs) && typeis(msgs[k], "*MsgEthTx") ==> unbox(msgs[k], "*MsgEthTx") != nil
+    requires wf: forall k int :: 0 <= k && k < len(msgs) && typeis(msgs[k], "*MsgEthTx") && unpack_ok(unbox(msgs[k], "*MsgEthTx").Data)
+             ==> txd_wf(unpack_td(unbox(msgs[k], "*MsgEthTx").Data)) && (txd_dynamic(unpack_td(unbox(msgs[k], "*MsgEthTx").Data)) ==> london)
+    modifies bank_bal   // `next` is unknown code
+    call next requires floor: mgp == 0 || forall k int :: 0 <= k && k < len(msgs) ==>
+             typeis(msgs[k], "*MsgEthTx") && unpack_ok(unbox(msgs[k], "*MsgEthTx").Data)
+             && dec_of(txd_effprice(unpack_td(unbox(msgs[k], "*MsgEthTx").Data), bf) * txd_gas(unpack_td(unbox(msgs[k], "*MsgEthTx").Data)))
+                >= mgp * txd_gas(unpack_td(unbox(msgs[k], "*MsgEthTx").Data))
+    ensures true
+    loop 1 back use DecMulInt(mgp, txd_gas(unpack_td(ethMsg.Data)))
+    loop 1 invariant basefee: (baseFee != nil) == london && (baseFee != nil ==> *baseFee == bf)
+    loop 1 invariant idx: 0 <= #i && #i <= len(msgs) && mgp != 0
+    loop 1 invariant floor: forall k int :: 0 <= k && k < #i ==>
+             typeis(msgs[k], "*MsgEthTx") && unpack_ok(unbox(msgs[k], "*MsgEthTx").Data)
+             && dec_of(txd_effprice(unpack_td(unbox(msgs[k], "*MsgEthTx").Data), bf) * txd_gas(unpack_td(unbox(msgs[k], "*MsgEthTx").Data)))
+                >= mgp * txd_gas(unpack_td(unbox(msgs[k], "*MsgEthTx").Data))
+@*/
